@@ -72,6 +72,11 @@ func TestWorker(t *testing.T) {
 		sum.AllHashes = map[string]string{}
 	}
 	seenSig := map[string]*Violation{}
+	raceLog := ""
+	var raceOff int64
+	if pfx := os.Getenv("VERIF_RACE_LOG"); pfx != "" {
+		raceLog = fmt.Sprintf("%s.%d", pfx, os.Getpid())
+	}
 	t0 := time.Now()
 	for i := 0; i < count; i++ {
 		if time.Since(t0) > budget {
@@ -101,13 +106,29 @@ func TestWorker(t *testing.T) {
 		if len(sum.Samples) < 3 && res.Sample != nil && (res.Nontrivial || i > count/2) {
 			sum.Samples = append(sum.Samples, map[string]any{"seed": seed, "steps": res.Steps, "sim_time": res.SimTime.String(), "case": res.Sample})
 		}
+		if raceLog != "" {
+			for _, rr := range newRaceReports(raceLog, &raceOff) {
+				sum.Stats["race_reports_total"]++
+				if !rr.repo {
+					sum.Stats["race_reports_outside_repo_ignored"]++
+					continue
+				}
+				// race reports come first: in the race phase they are what is being looked for
+				res.Failures = append([]simkit.Failure{{Tag: "C08/data-race", Sig: rr.sig, Msg: rr.msg}}, res.Failures...)
+				res.noShrink = true
+			}
+		}
 		if len(res.Failures) > 0 {
 			f := res.Failures[0]
 			key := f.Tag + "|" + f.Sig
 			if v, ok := seenSig[key]; ok {
 				v.Count++
 			} else if len(seenSig) < maxViol {
-				path, rep := WriteReplay(t, p, res, tier, replayDir, shrinkBudget)
+				sb := shrinkBudget
+				if res.noShrink {
+					sb = 0
+				}
+				path, rep := WriteReplay(t, p, res, tier, replayDir, sb)
 				v := &Violation{Seed: seed, Tag: rep.Tag, Sig: rep.Sig, Msg: rep.Msg, Replay: path, Count: 1}
 				seenSig[key] = v
 				emit("VIOL", v)
@@ -155,6 +176,20 @@ func TestReplay(t *testing.T) {
 		}
 	}
 	fmt.Printf("HASH %s\n", res.Hash)
+	if pfx := os.Getenv("VERIF_RACE_LOG"); pfx != "" {
+		var off int64
+		for _, rr := range newRaceReports(fmt.Sprintf("%s.%d", pfx, os.Getpid()), &off) {
+			if rr.repo {
+				res.Failures = append(res.Failures, simkit.Failure{Tag: "C08/data-race", Sig: rr.sig, Msg: rr.msg})
+			}
+		}
+		for _, f := range res.Failures {
+			if f.Tag == rep.Tag && f.Sig == rep.Sig {
+				fmt.Printf("REPRODUCED %s sig=%s :: %s\n", f.Tag, f.Sig, f.Msg)
+				return
+			}
+		}
+	}
 	if f := hasTag(res.Failures, rep.Tag); f != nil {
 		fmt.Printf("REPRODUCED %s sig=%s :: %s\n", f.Tag, f.Sig, f.Msg)
 		return
